@@ -65,6 +65,10 @@ def build_library(specs, names=None, uq=None):
     names = names or ['G%d' % i for i in range(len(specs))]
     contents = {}
     for nm, sp in zip(names, specs):
+        if isinstance(sp, dict) and 'alias' in sp:
+            # two names sharing ONE correlation object (allowed: contents are plain dict values)
+            contents[nm] = contents[names[sp['alias']]]
+            continue
         contents[nm] = {} if sp is None else {'thermochem': build_group(sp)}
     return GroupLibrary(None, contents, uq_contents=uq or {})
 
